@@ -127,6 +127,8 @@ type Machine struct {
 	MaxSteps  int
 	MaxDepth  int
 	MaxPaths  int
+	// OnExplored, if set, is called with the complete set of paths of every Explore.
+	OnExplored func(fn *ssa.Function, paths []*Path)
 	// Bind supplies the free variables when the explored function is a closure.
 	Bind func(m *Machine) []Val
 	// OpaqueOK lets calls without model or body become opaque effects; when
@@ -259,6 +261,9 @@ func (m *Machine) Explore(fn *ssa.Function, setup func(m *Machine) []Val, done f
 			paths = append(paths, &Path{Abort: "path limit reached"})
 			break
 		}
+	}
+	if m.OnExplored != nil {
+		m.OnExplored(fn, paths)
 	}
 	return paths
 }
